@@ -43,7 +43,7 @@ def verify(sid):
             pid = "C%02d" % i
             crc, cout = sh("%s -m menpolint.check %s --no-evidence" % (PY, pid), VERIF)
             lines = [l for l in cout.splitlines() if l.startswith(("menpo/", "ANALYSIS-ERROR")) or " C%02d.R" % i in l and not l.startswith("  ")]
-            checks[pid] = {"exit": crc, "reports": [l[:300] for l in cout.splitlines() if (".R" in l and l.startswith("menpo/")) or l.startswith("ANALYSIS-ERROR")][:6]}
+            checks[pid] = {"exit": crc, "reports": [l[:300] for l in cout.splitlines() if ((".R" in l or ".G" in l) and l.startswith("menpo/")) or l.startswith("ANALYSIS-ERROR")][:6]}
     finally:
         sh("git checkout -- .", REPO)
     assert clean_repo()
